@@ -109,6 +109,17 @@ DEP_AX = [   # G1 (Lean: PjGraph.G1) in skolemised form; TCp(E, a, x): a is a tr
     ForAll([x], hint_(x), patterns=[hint_(x)]),
 ]
 
+# termination measures: functions of the heap they are measured in.  Their existence for every acyclic finite graph is lemma K1 / wfE of
+# lemmas/Graph.lean (rank = number of transitive predecessors); heaps are finite.  Stated per heap, so a mutator's two heaps cannot clash.
+hgt = Function('height_in', PAR, T.z, IntSort()); dep = Function('depth_in', PAR, T.z, IntSort()); prk = Function('linkrank_in', REL, T.z, IntSort())
+MEASURE_AX = [
+    ForAll([pm, c], Implies(And(Acyc(pm), c != null, pm[c] != null), And(hgt(pm, c) < hgt(pm, pm[c]), dep(pm, pm[c]) < dep(pm, c))), patterns=[hgt(pm, c)], ),
+    ForAll([pm, c], Implies(And(Acyc(pm), c != null, pm[c] != null), dep(pm, pm[c]) < dep(pm, c)), patterns=[dep(pm, c)]),
+    ForAll([pm, c], And(hgt(pm, c) >= 0, dep(pm, c) >= 0), patterns=[hgt(pm, c)]), ForAll([pm, c], dep(pm, c) >= 0, patterns=[dep(pm, c)]),
+    ForAll([E_, x, a], Implies(And(AcycP(E_), x != null, E_[x][a]), prk(E_, a) < prk(E_, x)), patterns=[MultiPattern(E_[x][a], prk(E_, a))]),
+    ForAll([E_, x], prk(E_, x) >= 0, patterns=[prk(E_, x)]),
+]
+
 TASK_CLASSES = {'Task': {'_Task__parent': T, '_Task__children': LR, '_Task__wbs': W, '_Task__id': INT, '_Task__predecessors': LR, '_Task__successors': LR},
                 'WBS': {'_WBS__root': T}, 'PyList': {'elems': LT},
                 'ChildrenFacade': {'_ChildrenList__parent': T, '_list': LR}}
